@@ -1350,7 +1350,7 @@ fn has_move_case(step: usize) {
 }
 // @obl props=C07,C04,C19 tier=quick kind=harness-contract mem=8 est=200 timeout=1800
 // @fns GameState::has_move GameState::has_non_passing_like_action
-// @clause has_move's own logic, modular (generators and can_pass replaced by abstractions of their contracts; is_passing_like_action = uninterpreted P; steps 1 and 3, capture flag symbolic, all statuses, both sides): result is None <=> (push pending ? some completion survives the filter : can_pass(true) || some own step survives || some pull completion survives || some push start survives) -- exactly "valid_actions() is non-empty" by c01_assembly + c06_filter; otherwise Some(win for the opponent of the player on move); in setup: None
+// @clause has_move's own logic, modular (generators and can_pass replaced by abstractions of their contracts; is_passing_like_action = uninterpreted P; steps 0, 1 and 3, capture flag symbolic, all statuses, both sides): result is None <=> (push pending ? some completion survives the filter : can_pass(true) || some own step survives || some pull completion survives || some push start survives) -- exactly "valid_actions() is non-empty" by c01_assembly + c06_filter; otherwise Some(win for the opponent of the player on move); in setup: None
 #[kani::proof]
 #[kani::unwind(8)]
 #[kani::stub(GameState::extend_with_push_piece_actions, q_push)]
@@ -1362,11 +1362,118 @@ fn has_move_case(step: usize) {
 fn c07_has_move() {
     has_move_case(3);
     has_move_case(1);
+    has_move_case(0);
     let pb = any_board_raw();
     let setup = GameState::new(kani::any(), 1, Phase::PlacePhase, PieceBoard(pb.clone()), zob(kani::any()));
     assert!(setup.has_move(&pb).is_none(), "C07: setup always has a move");
 }
 
+// ===========================================================================
+// C04  is_terminal: the official order.  Composition against the callee contracts:
+// rabbit_at_goal / lost_all_rabbits are replaced by the spec functions their in-place
+// contracts (k_rabbit_at_goal, k_lost_all_rabbits) prove them equal to; has_move by a ghost
+// value constrained as c07_has_move proves.
+// ===========================================================================
+pub static mut HM_HAS_ACTION: bool = false;
+pub fn spec_goal_stub(gs: &GameState, pb: &PieceBoardState) -> Option<Terminal> {
+    goal_spec(pb, gs.is_p1_turn_to_move())
+}
+pub fn spec_elim_stub(gs: &GameState, pb: &PieceBoardState) -> Option<Terminal> {
+    elimination_spec(pb, gs.is_p1_turn_to_move())
+}
+pub fn spec_has_move_stub(gs: &GameState, _pb: &PieceBoardState) -> Option<Terminal> {
+    if unsafe { HM_HAS_ACTION } {
+        None
+    } else {
+        Some(winner(!gs.is_p1_turn_to_move()))
+    }
+}
+fn terminal_case(step: usize) {
+    let pb = any_wf_board();
+    let side: bool = kani::any();
+    let gs = play_state(&pb, side, step, any_status());
+    unsafe {
+        HM_HAS_ACTION = kani::any();
+    }
+    let has_action = unsafe { HM_HAS_ACTION };
+    let got = gs.is_terminal();
+    if step == 0 {
+        kani::cover!(rabbit_on_goal(&pb, side) && rabbit_on_goal(&pb, !side), "both sides have a rabbit on goal");
+        kani::cover!(!has_rabbit(&pb, side) && !has_rabbit(&pb, !side), "both sides lost all rabbits");
+        let want = terminal_order(
+            rabbit_on_goal(&pb, !side),
+            rabbit_on_goal(&pb, side),
+            has_rabbit(&pb, side),
+            has_rabbit(&pb, !side),
+            has_action,
+            side,
+        );
+        assert!(got == want, "C04: result at turn start follows the official order (goal of last mover, goal of mover, elimination of mover, elimination of last mover, immobilisation)");
+    } else {
+        kani::cover!(rabbit_on_goal(&pb, side), "mid-turn with a rabbit on goal");
+        assert!(got == (if has_action { None } else { Some(winner(!side)) }), "C04/C07: mid-turn a result is reported exactly when no action is offered, and it is a loss for the mover; goal and elimination are not consulted");
+    }
+}
+// @obl props=C04,C07,C19 tier=quick kind=harness-contract mem=6 est=120 timeout=1500
+// @fns GameState::is_terminal GameState::as_play_phase
+// @clause requires board_wf. callees replaced by their contracts (goal_spec, elimination_spec, has_move == None <=> an action is offered). ensures step 0: is_terminal == terminal_order (six-line official order, last mover first); step 1..3: is_terminal == has_move result only; setup: None
+#[kani::proof]
+#[kani::unwind(6)]
+#[kani::stub(GameState::rabbit_at_goal, spec_goal_stub)]
+#[kani::stub(GameState::lost_all_rabbits, spec_elim_stub)]
+#[kani::stub(GameState::has_move, spec_has_move_stub)]
+fn c04_is_terminal() {
+    terminal_case(0);
+    terminal_case(2);
+    let pb = any_board_raw();
+    let setup = GameState::new(kani::any(), 1, Phase::PlacePhase, PieceBoard(pb.clone()), zob(kani::any()));
+    assert!(setup.is_terminal().is_none(), "C04: no result during setup, whatever the board");
+}
+// ===========================================================================
+// C08 / C17: what the state exposes of its hash
+// ===========================================================================
+struct RecHasher {
+    words: u64,
+    last: u64,
+}
+impl Hasher for RecHasher {
+    fn finish(&self) -> u64 {
+        self.last
+    }
+    fn write(&mut self, _bytes: &[u8]) {
+        self.words += 100; // any byte-wise write would be something other than the one u64 we expect
+    }
+    fn write_u64(&mut self, x: u64) {
+        self.words += 1;
+        self.last = x;
+    }
+}
+// @obl props=C08,C17,C19 tier=quick kind=harness-contract mem=3 est=30
+// @fns GameState::transposition_hash Zobrist::board_state_hash_with_push_pull_state Zobrist::board_state_hash GameState::eq GameState::hash
+// @clause forall states: transposition_hash == hash ^ pp_value(status) in play (pp_value(None)==0, push/pull table value otherwise; requires the status invariant: no pushed elephant / pulling rabbit) and == hash in setup; s1 == s2 <=> their board-state hashes are equal; Hash feeds exactly that one u64
+#[kani::proof]
+#[kani::unwind(6)]
+fn c08_exposed_hash() {
+    let pb = any_board_raw();
+    let st = any_status();
+    match st {
+        PushPullState::MustCompletePush(_, p) => kani::assume(p != Piece::Elephant),
+        PushPullState::PossiblePull(_, p) => kani::assume(p != Piece::Rabbit),
+        _ => {}
+    }
+    let (h1, h2): (u64, u64) = (kani::any(), kani::any());
+    let a = play_state_h(&pb, kani::any(), 1, st, kani::any(), h1, kani::any(), 2);
+    let b = play_state_h(&any_board_raw(), kani::any(), 2, any_status(), kani::any(), h2, kani::any(), 7);
+    kani::cover!(h1 == h2);
+    kani::cover!(matches!(st, PushPullState::PossiblePull(_, _)));
+    assert!(a.transposition_hash() == h1 ^ crate::zobrist::verif::pp_value(st), "C08: transposition hash == board/side/step hash ^ push-pull value");
+    let setup = GameState::new(kani::any(), 1, Phase::PlacePhase, PieceBoard(pb.clone()), zob(h1));
+    assert!(setup.transposition_hash() == h1, "C08: setup-phase hash");
+    assert!((a == b) == (h1 == h2), "C08: states compare equal exactly when their board/side/step hashes are equal");
+    let mut rh = RecHasher { words: 0, last: 0 };
+    a.hash(&mut rh);
+    assert!(rh.words == 1 && rh.last == h1, "C08: Hash feeds exactly the board/side/step hash");
+}
 // ===========================================================================
 // meta: the canary.  An `ensures` that is false on the real supported_pieces; it must FAIL.
 // If it ever passes, the pipeline is not checking anything and the whole run is UNDECIDED.
